@@ -4,7 +4,7 @@ import z3
 
 from .values import PathEnd, Sym, mk
 
-FEAS_TIMEOUT_MS = 3000
+FEAS_TIMEOUT_MS = 1000
 
 
 class Obligation(object):
